@@ -27,7 +27,13 @@ def spelled_float(draw, value_digits=None, positive=False, big=True):
     """Returns (text, Fraction, features)."""
     feats = []
     if value_digits is None:
-        D = draw(st.text(DIGITS, min_size=1, max_size=7))
+        if draw(st.integers(0, 11)) == 0:
+            # a value written out with far more digits than a float carries (what '%.25e' / '%.30f' or a decimal
+            # library prints): 18-34 significant digits
+            D = draw(st.text(DIGITS, min_size=18, max_size=34))
+            feats.append("long-spelling")
+        else:
+            D = draw(st.text(DIGITS, min_size=1, max_size=7))
         q = draw(st.integers(0, len(D)))
         E = draw(st.sampled_from([0, 0, 0, 0, 1, -1, 2, -3, 5, -7, 12, -12, 25, -30])) if big else 0
     else:  # an exact integer value, spelled freely
@@ -47,13 +53,19 @@ def spelled_float(draw, value_digits=None, positive=False, big=True):
     elif ip == "":
         feats.append("no-int-part")
     if ip and draw(st.integers(0, 5)) == 0:
-        ip = "0" * draw(st.integers(1, 2)) + ip
+        pad = draw(st.sampled_from([1, 1, 2, 2, 1, 2, 20, 28]))  # zero-padded fixed-width fields
+        ip = "0" * pad + ip
         feats.append("leading-zeros")
+        if pad >= 20:
+            feats.append("long-spelling")
     if fp:
         body = ip + "." + fp
         if draw(st.integers(0, 4)) == 0:
-            body += "0" * draw(st.integers(1, 3))
+            pad = draw(st.sampled_from([1, 2, 3, 1, 2, 3, 22, 30]))
+            body += "0" * pad
             feats.append("trailing-zeros")
+            if pad >= 20:
+                feats.append("long-spelling")
     else:
         k = draw(st.integers(0, 3))
         if k == 0:
